@@ -2794,18 +2794,28 @@ class Cond(Generic[X, R], GFI[X, R]):
         **kwargs,
     ) -> tuple[Trace[X, R], Weight, X | None]:
         (check, *rest_args) = args
-        new_tr, w, discard = self.callee.regenerate(tr.trs[0], s, *rest_args, **kwargs)
+        # Bring both stored branch traces up to date with the visible choices
+        # first, so that unselected choices keep their values (and the weight
+        # accounts for the branch left behind) when the move switches branch.
+        visible = tr.get_choices()
+        old_tr, _, _ = tr.trs[0].update(visible)
+        old_tr_, _, _ = tr.trs[1].update(visible)
+        new_tr, w, discard = self.callee.regenerate(old_tr, s, *rest_args, **kwargs)
         new_tr_, w_, discard_ = self.callee_.regenerate(
-            tr.trs[1], s, *rest_args, **kwargs
+            old_tr_, s, *rest_args, **kwargs
         )
         if discard is None:
             merged_discard = discard_
         elif discard_ is None:
             merged_discard = discard
         else:
-            merged_discard, _ = self.callee.merge(discard, discard_)
+            merged_discard, _ = self.callee.merge(discard, discard_, check)
+        weight = jnp.where(check, w, w_) + (
+            tr.get_score()
+            - jnp.where(check, old_tr.get_score(), old_tr_.get_score())
+        )
         return (
             CondTr(self, check, [new_tr, new_tr_]),
-            jnp.where(check, w, w_),
+            weight,
             merged_discard,
         )
